@@ -5,7 +5,7 @@ d=$(mktemp -d /tmp/verif-try-XXXX)
 rsync -a --exclude target --exclude .git --exclude tmp /repo/ $d/
 (cd $d && patch -p1 -s -i "$1") || { rm -rf $d; echo "PATCH FAILED $1"; exit 3; }
 e=$(mktemp -d /tmp/verif-evid-XXXX)
-ids="${@:2}"; [ -z "$ids" ] && ids="C05 C06 C07 C08 C10 C11 C13 C14 C18 C19 C20"
+ids="${@:2}"; [ -z "$ids" ] && ids="C05 C06 C07 C08 C10 C11 C12 C13 C14 C18 C19 C20"
 rc_all=0
 for id in $ids; do
   out=$(VERIF_REPO=$d VERIF_EVID=$e /verif/check $id 2>&1); rc=$?
